@@ -360,10 +360,12 @@ func runC17(env *core.Env) {
 			}
 		})
 	}
+	planBodies := c17PlanNeighbours(env, base)
 	stdinCov := c17StdinFaults(env, base, target)
 	validated := conf.run(env)
 	env.Finish("model_checking", map[string]interface{}{
 		"stdin_fault_phase": stdinCov,
+		"plan_neighbour_phase": planBodies,
 		"clock_cases":       clockCases,
 		"states":            len(texts), "transitions": evals, "traces_validated_against_impl": validated, "samples": samples.list,
 		"evaluations": evals, "distinct_nontrivial": classes.len(), "exhaustive": env.TimeLeft(),
@@ -521,4 +523,68 @@ func init() {
 		sh, perr := core.ParseShow(w.Spawn(core.R(w.Proj, "--json", "show", id)).Out)
 		return perr != nil || sh.Body != a.Body
 	}
+}
+
+// c17PlanNeighbours: one plan creates several items from one document; every text must land on its own item. Four tasks,
+// every subset of them with a body (the others without), epic with and without body: each item's title and body must be
+// exactly what its own entry says (an absent body is the empty text).
+func c17PlanNeighbours(env *core.Env, base core.Store) map[string]interface{} {
+	type job struct {
+		mask int
+		epic bool
+	}
+	var jobs []job
+	for m := 0; m < 16; m++ {
+		jobs = append(jobs, job{m, false}, job{m, true})
+	}
+	var items int64
+	env.Parallel(len(jobs), func(w *core.Worker, i int) {
+		j := jobs[i]
+		doc := map[string]interface{}{"title": "plan epic"}
+		want := map[string]string{"plan epic": ""}
+		if j.epic {
+			doc["body"] = "body of the epic\nsecond line"
+			want["plan epic"] = "body of the epic\nsecond line"
+		}
+		var tasks []interface{}
+		for k := 0; k < 4; k++ {
+			title := fmt.Sprintf("plan task %d", k)
+			t := map[string]interface{}{"title": title}
+			want[title] = ""
+			if j.mask&(1<<k) != 0 {
+				want[title] = fmt.Sprintf("body of task %d \u00e9\n", k)
+				t["body"] = want[title]
+			}
+			tasks = append(tasks, t)
+		}
+		doc["tasks"] = tasks
+		base.Materialize(w.Proj)
+		req := core.R("", "--json", "plan").In(jsonStr(doc))
+		run := req
+		run.Cwd = w.Proj
+		if res := w.Run(run); res.Exit != 0 {
+			report(env, "C17 kind=plan-refused-plain-text", res.String(), mkTrace(base, "plan neighbours", []core.Req{req}, Assert{Kind: "exit_nonzero", Step: 1}))
+			return
+		}
+		obs := core.ObserveW(w, w.Proj)
+		seen := map[string]bool{}
+		for _, sh := range obs.Shows {
+			wb, mine := want[sh.Title]
+			if !mine {
+				continue
+			}
+			seen[sh.Title] = true
+			atomic.AddInt64(&items, 1)
+			if sh.Body != wb {
+				report(env, "C17 kind=text-altered after-the-command field=body via=plan/neighbouring-entry", fmt.Sprintf("plan with bodies on tasks %04b (epic body: %v): %q comes back with body %q, its entry says %q", j.mask, j.epic, sh.Title, sh.Body, wb),
+					mkTrace(base, "plan neighbours", []core.Req{req}, Assert{Kind: "exit_zero", Step: 1}, Assert{Kind: "body_of_title_is_not", Step: 1, Text: sh.Title + "\x00" + wb}))
+				return
+			}
+		}
+		if len(seen) != len(want) {
+			report(env, "C17 kind=text-altered after-the-command field=title via=plan/neighbouring-entry", fmt.Sprintf("plan with bodies on tasks %04b: only %d of %d titles come back", j.mask, len(seen), len(want)),
+				mkTrace(base, "plan neighbours", []core.Req{req}, Assert{Kind: "exit_zero", Step: 1}, Assert{Kind: "obs_lacks", Step: 1, Text: "plan task 3"}))
+		}
+	})
+	return map[string]interface{}{"documents": len(jobs), "items_compared": items, "rule": "4 tasks x every subset carrying a body x epic with/without body: every item shows exactly its own entry's title and body"}
 }
